@@ -1,5 +1,6 @@
 //! vharness: drives the real rust-media-libs code and records event logs for the TLA+ trace
 //! specifications under /verif/spec.  It records; it does not judge.
+mod amf;
 mod chunk;
 mod util;
 
@@ -19,6 +20,13 @@ fn main() {
             let shard: u64 = a.rest.get(1).map(|s| s.parse().unwrap()).unwrap_or(0);
             let nshards: u64 = a.rest.get(2).map(|s| s.parse().unwrap()).unwrap_or(1);
             let info = chunk::generate(&kind, &a.tier, a.seed, shard, nshards, &a.out);
+            println!("{}", info);
+        }
+        "amf" => {
+            let kind = a.rest[0].clone();
+            let shard: u64 = a.rest.get(1).map(|s| s.parse().unwrap()).unwrap_or(0);
+            let nshards: u64 = a.rest.get(2).map(|s| s.parse().unwrap()).unwrap_or(1);
+            let info = amf::generate(&kind, &a.tier, a.seed, shard, nshards, &a.out);
             println!("{}", info);
         }
         x => {
